@@ -7,6 +7,8 @@ import (
 	"strings"
 	"time"
 
+	"google.golang.org/protobuf/types/known/fieldmaskpb"
+
 	"github.com/smart-core-os/sc-api/go/traits"
 	"github.com/smart-core-os/sc-golang/pkg/resource"
 	"github.com/smart-core-os/sc-golang/pkg/trait/enterleavesensorpb"
@@ -99,6 +101,45 @@ type seedCase struct {
 	Direction int    `json:"direction"`
 	Occupant  string `json:"occupant"`
 	Total     int    `json:"total"`
+	// Opts names the read options handed to PullEnterLeaveEvents: "" (none) or "+"-joined tokens of
+	// bp (WithBackpressure(true)), lossy (WithBackpressure(false)), uo0 (WithUpdatesOnly(false)), nilmask (WithReadMask(nil)),
+	// mask:<letters of dot | 0> (WithReadMask over direction / occupant / enter_total; 0 = the empty mask)
+	Opts string `json:"opts,omitempty"`
+}
+
+// seedOpts builds the option list a seedCase names and the mask token the model is given (`-` = no read mask).
+func seedOpts(spec string) (opts []resource.ReadOption, mask string) {
+	mask = "-"
+	if spec == "" {
+		return nil, mask
+	}
+	for _, tok := range strings.Split(spec, "+") {
+		switch {
+		case tok == "bp":
+			opts = append(opts, resource.WithBackpressure(true))
+		case tok == "lossy":
+			opts = append(opts, resource.WithBackpressure(false))
+		case tok == "uo0":
+			opts = append(opts, resource.WithUpdatesOnly(false))
+		case tok == "nilmask":
+			opts = append(opts, resource.WithReadMask(nil))
+		case strings.HasPrefix(tok, "mask:"):
+			mask = strings.TrimPrefix(tok, "mask:")
+			fm := &fieldmaskpb.FieldMask{}
+			for _, c := range mask {
+				switch c {
+				case 'd':
+					fm.Paths = append(fm.Paths, "direction")
+				case 'o':
+					fm.Paths = append(fm.Paths, "occupant")
+				case 't':
+					fm.Paths = append(fm.Paths, "enter_total")
+				}
+			}
+			opts = append(opts, resource.WithReadMask(fm))
+		}
+	}
+	return opts, mask
 }
 
 func showELE(e *traits.EnterLeaveEvent) string {
@@ -120,11 +161,12 @@ func runSeedCase(c seedCase) (ans string, storedChanged bool) {
 	m := enterleavesensorpb.NewModel(enterleavesensorpb.WithInitialEnterLeaveEvent(ev))
 	stored, _ := m.GetEnterLeaveEvent() // no mask: the stored message itself
 	before := showELE(stored)
+	opts, _ := seedOpts(c.Opts)
 	ctx, cancel := context.WithCancel(context.Background())
 	defer cancel()
 	var sent string
 	select {
-	case ch, ok := <-m.PullEnterLeaveEvents(ctx):
+	case ch, ok := <-m.PullEnterLeaveEvents(ctx, opts...):
 		if !ok {
 			return "no-seed", false
 		}
@@ -139,7 +181,8 @@ func runSeedCase(c seedCase) (ans string, storedChanged bool) {
 func runRim2(f lib.Flags, res *lib.Result) {
 	tie := res.Tie("rim-merge-seed", "K1",
 		"metadatapb MergeMetadata vs the Lean `mergeTraits` (stored traits with distinct names from {a,b,c,~}, `more` maps over {x,y}x{1,2}; updates of 0-3 traits with "+
-			"possibly repeated names) and enterleavesensorpb Pull seed vs the Lean `seedEdit` (all directions x occupant present/absent x totals 0-2, exhaustive); compared: "+
+			"possibly repeated names) and enterleavesensorpb PullEnterLeaveEvents vs the Lean `pullFirst` (all directions x occupant present/absent x totals 0-2 x 13 read-option lists: none, backpressure on/off, updates-only false, nil mask, "+
+			"read masks over direction/occupant/enter_total incl. the empty mask, mixtures; exhaustive); compared: "+
 			"the result / the seed sent AND the stored messages as they are afterwards; non-trivial = the update is not empty / direction or occupant set")
 	mon := res.Monitor("rim-merge-seed-frame", "on the same cases: the stored trait messages / the stored event are exactly as before the call")
 	drv, err := lib.StartDriver(f.Driver)
@@ -191,19 +234,25 @@ func runRim2(f lib.Flags, res *lib.Result) {
 		inputs = append(inputs, c)
 		nontrivial = append(nontrivial, len(upd) > 0)
 	}
-	for d := 0; d <= 2; d++ {
-		for _, o := range []string{"-", "bob"} {
-			for t := 0; t <= 2; t++ {
-				c := seedCase{Kind: "seed", Direction: d, Occupant: o, Total: t}
-				ans, changed := runSeedCase(c)
-				mon.Eval(fmt.Sprint(c), d != 0 || o != "-", nil)
-				if changed || ans == "no-seed" {
-					mon.Violate("C07/enterleavesensorpb/PullEnterLeaveEvents/writes-stored-event", "opening a Pull changed the stored event", c, "unchanged", ans)
+	// every option list the adapter can be handed that leaves it a seed to edit: none at all, options that are not a read
+	// mask (the seed is then the stored event itself), read masks (the seed is a filtered clone), and mixtures
+	optSets := []string{"", "bp", "lossy", "uo0", "nilmask", "uo0+nilmask", "bp+uo0", "mask:dot", "mask:t", "mask:do", "mask:0", "bp+mask:dt", "uo0+mask:o"}
+	for _, spec := range optSets {
+		for d := 0; d <= 2; d++ {
+			for _, o := range []string{"-", "bob"} {
+				for t := 0; t <= 2; t++ {
+					c := seedCase{Kind: "seed", Direction: d, Occupant: o, Total: t, Opts: spec}
+					ans, changed := runSeedCase(c)
+					mon.Eval(fmt.Sprint(c), d != 0 || o != "-", nil)
+					if changed || ans == "no-seed" {
+						mon.Violate("C07/enterleavesensorpb/PullEnterLeaveEvents/writes-stored-event", "opening a Pull changed the stored event", c, "unchanged", ans)
+					}
+					_, mask := seedOpts(spec)
+					lines = append(lines, fmt.Sprintf("rim seedp %d %s %d %s", d, o, t, mask))
+					code = append(code, ans)
+					inputs = append(inputs, c)
+					nontrivial = append(nontrivial, d != 0 || o != "-")
 				}
-				lines = append(lines, fmt.Sprintf("rim seed %d %s %d", d, o, t))
-				code = append(code, ans)
-				inputs = append(inputs, c)
-				nontrivial = append(nontrivial, d != 0 || o != "-")
 			}
 		}
 	}
